@@ -27,7 +27,9 @@ COMPONENTS = {
              "pce500/scheduler.py", "pce500/keyboard_matrix.py", "pce500/memory.py",
              "sc62015/pysc62015 emulator + instr lifting (Python core)",
              "sc62015/core/src/lib.rs CoreRuntime::step/deliver_pending_irq/press_on_key",
-             "sc62015/core/src/timer.rs", "sc62015/core/src/keyboard.rs", "sc62015/core/src/llama/eval.rs"],
+             "sc62015/core/src/timer.rs", "sc62015/core/src/keyboard.rs", "sc62015/core/src/llama/eval.rs",
+             "sc62015/core/src/async_devices.rs AsyncTimerKeyboardTask::run on sc62015/core/src/async_driver.rs (rs-async-timer)",
+             "save_snapshot/load_snapshot of both machines (restart ops in the faulty batches)"],
     "stub": ["binja_test_mocks (Binary Ninja API + LLIL evaluator)", "perfetto tracing compiled out",
              "synthetic firmware instead of the PC-E500 ROM", "host input modelled by the event schedule"],
 }
